@@ -145,9 +145,14 @@ def netcdf_roundtrip(req):
         mask = numpy.zeros(n, dtype=bool)
         if rec['maskpat'] in (1, 3) and i == 0:
             mask[0] = True
-        if rec['maskpat'] in (2, 3) and i == len(names) - 1:
+        if rec['maskpat'] in (2, 3, 5) and i == len(names) - 1:
             mask[-1] = True
-        a = numpy.ma.array(vals.reshape(shape), mask=mask.reshape(shape), dtype=float if rec['dkind'] == 'f' else int)
+        if rec['maskpat'] == 4 and 0 < i < len(names) - 1:
+            mask[n // 2] = True
+        if rec['maskpat'] in (0, 5) and i == 0:
+            a = numpy.ma.array(vals.reshape(shape), dtype=float if rec['dkind'] == 'f' else int)       # no mask array at all
+        else:
+            a = numpy.ma.array(vals.reshape(shape), mask=mask.reshape(shape), dtype=float if rec['dkind'] == 'f' else int)
         a.soften_mask()
         mpvinputs.TABLE[nm] = a
     libs = ('mpilot.libraries.eems.basic', 'mpilot.libraries.eems.netcdf', 'mpilot.libraries.eems.fuzzy', 'mpvinputs')
